@@ -503,6 +503,24 @@ impl Model for MatModel {
 
 /// the documented contract of `Matrix::diagonal`: ml = mu = 0 storage, writable on its diagonal
 fn diag_contract_of(label: &str, n: usize, m: &Matrix) -> Option<String> {
+    // the triangular constructors: a band that holds the whole triangle, writable in its far corner
+    if label == "upper_triangular" || label == "lower_triangular" {
+        let upper = label == "upper_triangular";
+        let want = if upper { MatrixStorage::Banded { ml: 0, mu: n - 1 } } else { MatrixStorage::Banded { ml: n - 1, mu: 0 } };
+        if m.storage != want {
+            return Some(format!("storage is {:?}, the triangle needs {:?}", m.storage, want));
+        }
+        let (i, j) = if upper { (0, n - 1) } else { (n - 1, 0) };
+        let wr = guarded(|| {
+            let mut m2 = m.clone();
+            m2[(i, j)] = 7.5;
+            m2[(i, j)]
+        });
+        if wr != Ok(7.5) {
+            return Some(format!("writing the corner ({},{}) of the triangle gives {:?}", i, j, wr));
+        }
+        return None;
+    }
     if !label.starts_with("diagonal") {
         return None;
     }
